@@ -192,6 +192,17 @@ def run (st : St) (args : List String) : St × String :=
     match st.conns[k.toNat!]? with
     | some c => (setConn st k.toNat! { c with c := drain (noise c.c) }, "ok")
     | none => (st, "bad-op")
+  | ["sg.other", k] =>
+    -- a registration for another signal of the object on this connection: its reply is other traffic; the user table
+    -- gets an entry that no emission of this signal concerns (Props/C13: remove_keeps_others, no_cross_signal)
+    match st.conns[k.toNat!]? with
+    | some c => (setConn st k.toNat! { c with c := drain (noise c.c) }, "ok")
+    | none => (st, "bad-op")
+  | ["sg.wire", k] =>
+    -- the events of the signal the server has put on the connection: one per emission while registered
+    match st.conns[k.toNat!]? with
+    | some c => (st, toString (c.c.log.filter (fun f => match f with | .event _ _ => true | _ => false)).length)
+    | none => (st, "bad-op")
   | ["sg.got", g] => (st, gotStr st g.toNat!)
   | "sg.emitrace" :: _ =>
     -- the model's run of that schedule (Props/C13Emit.lean, `raceActs`): events for the removed registration behind
